@@ -250,6 +250,14 @@ def asts(seed=0, known_labels=(), nseeds=2, shard=0, nshards=1):
                     eq = _equivalent(e, back[i])
                     if eq is False:
                         fail("pickle/ast-xproc-meaning", name, mysx[i], res["sexprs"][i], f"{name}: z3 translation differs and is not equivalent", ex)
+                # hash-consing after unpickling (C06 + C18): in the child, the unpickled node and the same expression built natively there have
+                # the same structure => they must be ONE object, stored under the hash of that structure
+                if "identity" in res and res["dumps"][i] == res["own_dumps"][i] and res["native_consed"][i] and not res["identity"][i]:
+                    fail("pickle/ast-xproc-not-hash-consed", name, "the node that building the expression natively returns", "a second node with the same structure",
+                         f"{name}: in a process with PYTHONHASHSEED={hs} the unpickled expression and the natively built one are different objects (replace(), identity tests and caches keyed by hash miss it)", ex)
+                if "hash_ok" in res and not res["hash_ok"][i]:
+                    fail("pickle/ast-xproc-foreign-hash", name, "hash of the node's own structure", "the hash stored in the pickle",
+                         f"{name}: an unpickled node carries a hash that is not the hash of its structure in this process (PYTHONHASHSEED={hs})", ex)
                 if dump(back[i]) != mine[i]:
                     fail(_lab("pickle/ast-xproc-roundtrip", mine[i], dump(back[i])), name, mine[i], dump(back[i]), f"{name}: parent->child->parent round trip changed the structure", ex)
                 if dump(own[i]) != mine[i]:
@@ -446,7 +454,22 @@ def _child_asts(d):
         loaded = pickle.load(fh)
     own = [e for _, e in build_asts()]
     hits = sum(1 for a, b in zip(loaded, own) if a is b)
+    from claripy.ast import Base as _Base
+
+    def _hash_ok(e, seen=None):
+        """every node of the unpickled expression carries the hash of its own structure (the key it is stored under)"""
+        seen = set() if seen is None else seen
+        if id(e) in seen:
+            return True
+        seen.add(id(e))
+        if e.hash() != _Base._calc_hash(e.op, e.args, e.annotations, e.length):
+            return False
+        return all(_hash_ok(a, seen) for a in e.args if isinstance(a, _Base))
     out = {"dumps": [dump(e) for e in loaded], "sexprs": [sexpr(e) for e in loaded], "identity_hits": hits,
+           "identity": [a is b for a, b in zip(loaded, own)], "own_dumps": [dump(e) for e in own], "hash_ok": [_hash_ok(e) for e in loaded],
+           # baseline: is this expression hash-consed at all when built twice natively?  (annotation classes without a value-based __hash__
+           # are not: the recorded C06 finding; only expressions that ARE must also be after unpickling)
+           "native_consed": [a is b for a, (_, b) in zip(own, build_asts())],
            "hashseed": os.environ.get("PYTHONHASHSEED")}
     with open(os.path.join(d, "back.pkl"), "wb") as fh:
         pickle.dump(loaded, fh, -1)
